@@ -406,6 +406,21 @@ Record config := mkC
   { caddr : N; cname : option str; cdeep : bool; cmodel : N;
     cprops : list (str * dict); csvcs : list bsvc }.
 
+(* config.get_service(protocol) *)
+Definition svc_of (p : proto) (l : list bsvc) : option bsvc := find (fun b => proto_eqb p (bproto b)) l.
+
+(* BaseConfig.identifier: the identifier of the first protocol of a FIXED order whose service has
+   one (`is not None`: an empty string counts here) *)
+Definition main_identifier (c : config) : option str :=
+  first_some (map (fun p => match svc_of p (csvcs c) with Some b => bident b | None => None end)
+                  [MRP; DMAP; AirPlay; RAOP; Companion]).
+
+(* BaseConfig.main_service(): protocol and port of the first service in MRP, DMAP, AirPlay, RAOP;
+   None = NoServiceError *)
+Definition main_service (c : config) : option (proto * N) :=
+  first_some (map (fun p => option_map (fun b => (bproto b, bport b)) (svc_of p (csvcs c)))
+                  [MRP; DMAP; AirPlay; RAOP]).
+
 (* _get_device_info, MODEL key only: first extractor that sets it wins, the
    _device-info model is merged last without overriding *)
 Definition device_model (lk : lookups) (props : list (str * dict)) (d : fdev) : N :=
@@ -578,7 +593,8 @@ Definition scan_multicast_burst (lk : lookups) (wanted : list proto) (ids : list
 Definition ostr := option str.
 Definition osvc := (N * ostr * N * dict)%type.
 Record oconfig := mkO
-  { oaddr : N; oname : ostr; odeep : bool; omodel : N; oprops : list (str * dict); osvcs : list osvc }.
+  { oaddr : N; oname : ostr; odeep : bool; omodel : N; oprops : list (str * dict); osvcs : list osvc;
+    omain : ostr; omsvc : option (N * N) }.
 
 Definition dict_exact (a b : dict) : bool := list_beq pair_eqb a b.
 Definition osvc_eqb (a b : osvc) : bool :=
@@ -588,11 +604,13 @@ Definition tprops_eqb (a b : str * dict) : bool := str_eqb (fst a) (fst b) && di
 Definition oconfig_eqb (a b : oconfig) : bool :=
   N.eqb (oaddr a) (oaddr b) && opt_beq str_eqb (oname a) (oname b) && Bool.eqb (odeep a) (odeep b) &&
   N.eqb (omodel a) (omodel b) && list_beq tprops_eqb (oprops a) (oprops b) &&
-  list_beq osvc_eqb (osvcs a) (osvcs b).
+  list_beq osvc_eqb (osvcs a) (osvcs b) && opt_beq str_eqb (omain a) (omain b) &&
+  opt_beq (fun x y => N.eqb (fst x) (fst y) && N.eqb (snd x) (snd y)) (omsvc a) (omsvc b).
 
 Definition observe (c : config) : oconfig :=
   mkO (caddr c) (cname c) (cdeep c) (cmodel c) (cprops c)
-      (map (fun b => (proto_num (bproto b), bident b, bport b, bprops b)) (csvcs c)).
+      (map (fun b => (proto_num (bproto b), bident b, bport b, bprops b)) (csvcs c))
+      (main_identifier c) (option_map (fun pn => (proto_num (fst pn), snd pn)) (main_service c)).
 
 Definition table_lk (tm : list (str * N)) (ti : list (str * N)) : lookups :=
   mkLk (fun x => match dget str_eqb x tm with Some v => v | None => 0%N end)
